@@ -20,7 +20,7 @@ ASSUMPTIONS = ['"measurements in the chunk" = distinct (ceilo, dt) of chunk.data
                'crashes of run() are left to C08']
 BUDGET = {'quick': 900, 'thorough': 20000}
 CORPUS = 'pipeline'
-WEIGHTS = {'layered': 8, 'exact_counts': 4, 'split_candidate': 2, 'merge_chain': 2, 'ref_window': 2,
+WEIGHTS = {'layered': 8, 'handover': 3, 'exact_counts': 4, 'split_candidate': 2, 'merge_chain': 2, 'ref_window': 2,
            'degenerate': 1}
 GRID_N = {'quick': 12, 'thorough': 40}
 
